@@ -265,7 +265,7 @@ def const_args(fn_callee, term, caller=None):
     return out
 
 
-def reach_specialised(facts, start_fn, start_blocks=None, start_prune=None, live_out=None):
+def reach_specialised(facts, start_fn, start_blocks=None, start_prune=None, live_out=None, prune_out=None):
     """set of (Fn, frozenset(prune items)) reachable from the given blocks of start_fn; also returns the set of Fn.
     Closures / fn items referenced as values are followed unspecialised."""
     seen = set()
@@ -284,6 +284,8 @@ def reach_specialised(facts, start_fn, start_blocks=None, start_prune=None, live
             live = live & set(blocks)
         if live_out is not None:
             live_out.setdefault(fn, set()).update(live)
+        if prune_out is not None and prune not in prune_out.setdefault(fn, []):
+            prune_out[fn].append(prune)
         for bb in live:
             t = fn.term(bb)
             if t['k'] in ('call', 'tailcall'):
